@@ -25,7 +25,7 @@ def _const(draw, consts):
 def programs(draw, max_preds=5, allow_evidence=True, allow_neg=True, allow_rec=True, allow_ads=True,
              allow_nonground_query=True, allow_neg_query=True, min_queries=1, allow_negcycle=False,
              max_clauses=3, allow_shuffle=True, max_consts=3, prob_grid=None, neg_bias=False, allow_body_or=True,
-             share_bias=False, evidence_bias=False, error_clauses=False):
+             share_bias=False, evidence_bias=False, error_clauses=False, negdef_bias=False, or_bias=False):
     grid = prob_grid or PROB_GRID
     nconst = draw(st.integers(1, max_consts))
     consts = CONSTS[:nconst]
@@ -107,7 +107,8 @@ def programs(draw, max_preds=5, allow_evidence=True, allow_neg=True, allow_rec=T
     for p in preds:
         ncl = draw(st.integers(1, max_clauses + (2 if share_bias and p is preds[0] else 0)))
         for ci in range(ncl):
-            kinds = ["fact", "pfact", "pfact", "rule", "rule"] + (["rule_or"] if allow_body_or else [])
+            kinds = ["fact", "pfact", "pfact", "rule", "rule"] + (["rule_or"] if allow_body_or else []) + \
+                (["rule_or", "rule_or", "rule_or"] if or_bias else [])
             if allow_ads:
                 kinds += ["adfact", "adrule", "prule"]
             if (p["stratum"] == 0 and ci == 0) or (share_bias and p is preds[0]):
@@ -220,6 +221,31 @@ def programs(draw, max_preds=5, allow_evidence=True, allow_neg=True, allow_rec=T
                 txt = "0.5::ngp_%s(X).\n%s :- ngp_%s(_)." % (p["name"], head, p["name"])
             pos = draw(st.integers(0, len(prog)))
             prog = prog[:pos] + [["raw", txt]] + prog[pos:]
+    if negdef_bias:
+        # an atom defined by a bare negation of a probabilistic atom (its ground node is a NEGATIVE literal), used in
+        # the body of another clause, with evidence on it or on the atom under the negation
+        pf = [s_[2] for s_ in prog if s_[0] == "pfact" and all(t[0] == "a" for t in s_[2][1]) and
+              0.0 < float(s_[1]) < 1.0]
+        if pf and draw(st.integers(0, 2)) != 0:
+            under = draw(st.sampled_from(pf))
+        else:
+            under = ["nb", []]
+            prog.append(["pfact", draw(st.sampled_from(grid)), under])
+        prog.append(["rule", ["na", []], [[True, under[0], under[1]]]])
+        body = [[False, "na", []]]
+        if pf and draw(st.booleans()):
+            other = draw(st.sampled_from(pf))
+            body.append([draw(st.integers(0, 3)) == 0, other[0], other[1]])
+        if draw(st.booleans()):
+            body.reverse()
+        prog.append(["rule", ["nq", []], body])
+        if draw(st.integers(0, 2)) == 0:
+            prog.append(["rule", ["nq", []], [[False, draw(st.sampled_from(pf))[0], []]]] if pf and not pf[0][1]
+                        else ["pfact", "0.1", ["nq", []]])
+        qs.append(["query", ["nq", []], draw(st.integers(0, 4)) == 0])
+        if allow_evidence:
+            es.append(["evidence", ["na", []] if draw(st.integers(0, 2)) != 0 else under, draw(st.booleans()),
+                       draw(st.integers(0, 1))])
     tail = qs + es
     if allow_shuffle and draw(st.booleans()):
         tail = list(draw(st.permutations(tail)))
@@ -600,7 +626,7 @@ def cyclic_body_disjunction_with_complement(prog):
 
 
 @st.composite
-def dense_cycles(draw, max_atoms=5):
+def dense_cycles(draw, max_atoms=5, neg=False):
     """Propositional programs with densely mutually recursive derived atoms, each with its own probabilistic
     support, and several queries in drawn order (the order in which cycle breaking meets the atoms matters)."""
     n = draw(st.integers(3, max_atoms))
@@ -612,8 +638,11 @@ def dense_cycles(draw, max_atoms=5):
     for i in range(n):
         rules.append(["rule", [names[i], []], [[False, "f%d" % i, []]]])
         for j in range(n):
-            if i != j and draw(st.integers(0, 2)) != 0:
-                body = [[False, names[j], []]]
+            if (i != j or neg) and draw(st.integers(0, 2)) != 0:
+                # with neg: one dependency in four is negative, and an atom may depend on itself
+                body = [[neg and draw(st.integers(0, 3)) == 0, names[j], []]]
+                if neg and i == j and not body[0][0] and draw(st.booleans()):
+                    body[0][0] = True
                 if draw(st.integers(0, 3)) == 0:
                     k = draw(st.integers(0, n - 1))
                     body.append([False, "f%d" % k, []])
@@ -626,4 +655,52 @@ def dense_cycles(draw, max_atoms=5):
         prog.append(["query", [q, []], False])
     if draw(st.integers(0, 3)) == 0:
         prog.append(["evidence", [draw(st.sampled_from(names)), []], draw(st.booleans()), 0])
+    return prog
+
+
+@st.composite
+def reach_programs(draw):
+    """Graph reachability written with a body disjunction (the textbook shape of test/smokers_or.pl, with several
+    start nodes): start/1 facts, probabilistic edge/2 facts over 3-4 nodes and
+        reach(X) :- (start(X) ; reach(Y), edge(Y,X)).
+    with the alternatives and the two literals of the recursive alternative in either order, optionally split into
+    two clauses; ground and non-ground queries."""
+    n = draw(st.integers(3, 4))
+    nodes = CONSTS[:3] + (["d"] if n == 4 else [])
+    prog = []
+    for c in draw(st.lists(st.sampled_from(nodes), min_size=1, max_size=3, unique=True)):
+        if draw(st.integers(0, 2)) == 0:
+            prog.append(["fact", ["s", [["a", c]]]])
+        else:
+            prog.append(["pfact", draw(st.sampled_from(PROB_GRID)), ["s", [["a", c]]]])
+    edges = draw(st.lists(st.tuples(st.sampled_from(nodes), st.sampled_from(nodes)), min_size=1, max_size=5, unique=True))
+    for a, b in edges:
+        if draw(st.integers(0, 3)) == 0:
+            prog.append(["fact", ["e", [["a", a], ["a", b]]]])
+        else:
+            prog.append(["pfact", draw(st.sampled_from(PROB_GRID)), ["e", [["a", a], ["a", b]]]])
+    base = [[False, "s", [["v", "X"]]]]
+    rec = [[False, "r", [["v", "Y"]]], [False, "e", [["v", "Y"], ["v", "X"]]]]
+    if draw(st.booleans()):
+        rec.reverse()
+    head = ["r", [["v", "X"]]]
+    shape = draw(st.integers(0, 3))
+    if shape == 0:
+        prog.append(["rule_or", head, [], base, rec])
+    elif shape == 1:
+        prog.append(["rule_or", head, [], rec, base])
+    else:
+        cl = [["rule", head, base], ["rule", head, rec]]
+        if shape == 3:
+            cl.reverse()
+        prog += cl
+    if draw(st.integers(0, 2)) == 0:
+        prog = list(draw(st.permutations(prog)))
+    for _ in range(draw(st.integers(1, 2))):
+        if draw(st.booleans()):
+            prog.append(["query", ["r", [["v", "X"]]], False])
+        else:
+            prog.append(["query", ["r", [["a", draw(st.sampled_from(nodes))]]], draw(st.integers(0, 4)) == 0])
+    if draw(st.integers(0, 3)) == 0:
+        prog.append(["evidence", ["r", [["a", draw(st.sampled_from(nodes))]]], draw(st.booleans()), 0])
     return prog
